@@ -54,16 +54,6 @@ func modelFromCatalog(cat *lungo.Catalog) *ref.Model {
 	return m
 }
 
-func toDocs(a bson.A) []bson.D {
-	var out []bson.D
-	for _, v := range a {
-		out = append(out, asD(v))
-	}
-	return out
-}
-
-func toFilters(a bson.A) []bson.D { return toDocs(a) }
-
 func isObjectID(v interface{}) bool { _, ok := v.(primitive.ObjectID); return ok }
 
 func sameValue(a, b interface{}) bool {
